@@ -132,6 +132,29 @@ def family(tier):
                         if two:
                             kw2 = {wpos: disj([ev('a'), ev('b')]), other_pos: ev(shared, None, veq(0))}
                             out.append(props.make_property(sk, pk, act=act, term=term, max_t=max_t, **kw2))
+    # the two events of a pattern share a topic, or are the very same event: an alternative at the split position is
+    # (or overlaps) the other event - "a requires a" is not vacuous (it needs an EARLIER a), nor is "a causes a";
+    # and alternatives whose predicate is the literal False / True are alternatives like any other
+    PFALSE = ('pfalse',)
+    for sk, act, term in (('globally', None, None), ('after', ev('s'), None), ('until', None, ev('e'))):
+        for pk in props.PATTERNS:
+            sp = props.SPLIT_POSITION[pk]
+            two = pk in props.TWO_EVENT
+            wpos = sp or 'beh'
+            other_pos = ('trig' if wpos == 'beh' else 'beh') if two else None
+            menus = [[ev('a', None, PFALSE), ev('b')], [ev('a'), ev('b', None, PFALSE)], [ev('a', None, PFALSE), ev('b', None, PFALSE)], [ev('a'), ev('b', None, PFALSE), ev('c', None, veq(1))],
+                     [ev('a', None, PFALSE), ev('a')]]
+            if two:
+                menus += [[ev('d'), ev('a')], [ev('a'), ev('d')], [ev('d', None, veq(0)), ev('a')], [ev('d'), ev('d', None, veq(1))], [ev('a'), ev('d'), ev('b')], [ev('d'), ev('a', None, PFALSE)]]
+            for alts in menus:
+                for max_t in (INF,) + b['time_bounds_s'][:1]:
+                    for other in ((ev('d'), ev('d', None, veq(0)), ev('d', None, PFALSE)) if two else (None,)):
+                        if sk != 'globally' and (max_t != INF or (other is not None and other[3] != props.PTRUE)):
+                            continue
+                        kw = {wpos: disj(alts)}
+                        if two:
+                            kw[other_pos] = other
+                        out.append(props.make_property(sk, pk, act=act, term=term, max_t=max_t, **kw))
     # dedupe
     seen = set()
     res = []
@@ -234,6 +257,15 @@ def check_property(p, tier, r=None, want_cex=False, route='parser'):
         except Exception as e:  # noqa: BLE001
             st, obj = impl.outcome_class(e), e
         text = absyn.property_text(p, time=time_text(2.0)) + ' [API, min_time = 1 s]'
+    elif route == 'api-min-same':
+        # the same upper bound as the parsed property checked just before, in the same process, plus a lower bound
+        # of half of it: the two print alike (min_time has no syntax) and are different properties
+        p = (p[0], p[1], p[2][:4] + (p[2][5] / 2, p[2][5]))
+        try:
+            st, obj = 'ok', absyn.build(p)
+        except Exception as e:  # noqa: BLE001
+            st, obj = impl.outcome_class(e), e
+        text = absyn.property_text(p, time=time_text(p[2][5])) + f' [API, min_time = {p[2][4]} s, after the same text without it]'
     else:
         try:
             st, obj = 'ok', absyn.build(left_nested(p))
@@ -361,8 +393,9 @@ def run(unit):
             probs += check_property(p, tier, r, route='derived')
         if widest == 2 and p[2][5] != INF:
             probs += check_property(p, tier, r, route='api-min')
+            probs += check_property(p, tier, r, route='api-min-same')
         for kind_, detail in probs:
-            r.violation(f'{kind_} [{p[1][1]}, {p[2][1]}]', {'property': p, 'text': absyn.property_text(p, time=time_text(p[2][5])), 'api_left': 'left-nested' in detail, 'api_min': 'min_time' in detail, 'derived': 'replaced with but()' in detail}, detail, size=len(absyn.property_text(p, time=time_text(p[2][5]))))
+            r.violation(f'{kind_} [{p[1][1]}, {p[2][1]}]', {'property': p, 'text': absyn.property_text(p, time=time_text(p[2][5])), 'api_left': 'left-nested' in detail, 'api_min': 'min_time = 1 s' in detail, 'api_min_same': 'after the same text' in detail, 'derived': 'replaced with but()' in detail}, detail, size=len(absyn.property_text(p, time=time_text(p[2][5]))))
         if len(r.samples) < 1:
             r.sample({'property': absyn.property_text(p, time=time_text(p[2][5]))})
     return r
@@ -373,13 +406,16 @@ def replay(w):
 
     p = _detuple(w['property'])
     # floats survive json; tuples restored
+    if w.get('api_min_same'):
+        check_property(p, 'thorough')  # the history: the parsed property with the same text first
+        return [{'sig': k, 'detail': d} for k, d in check_property(p, 'thorough', route='api-min-same')]
     return [{'sig': k, 'detail': d} for k, d in check_property(p, 'thorough', route='api-left' if w.get('api_left') else 'api-min' if w.get('api_min') else 'derived' if w.get('derived') else 'parser')]
 
 
 def describe(tier):
     b = bounds(tier)
     return {
-        'rule': f"properties: 4 scope kinds (activator simple, with/without alias; terminator with/without predicate) x 5 pattern kinds x width 1..{b['max_width']} at the position canonical_form splits (behaviour for existence, to see it is left alone) x other event width 1..{b['other_width']} x decorations (plain, predicate on first / all alternatives, a conjunctive / disjunctive predicate on the first alternative, alias bound on every alternative and used by the other event or vice versa, activator alias used by every alternative) x time bound (none, {b['time_bounds_s']} s); x all timed traces of length <= {b['trace_len']} (per property the largest length whose complete trace set has <= {b['trace_budget']} traces, never below 2; histogram in outcome_histogram trace_len=*) over mentioned topics + 'o', payload v in {{0,1}} where predicates exist, gaps 0/1/2 s, end slack 0/3 s. Also: alternatives (or the other event) that share their topic with the terminator or the activator under a different predicate (4 scope forms x 5 patterns x 2 shared topics x 5 arrangements); disjunctive terminators (never split) on a thinner slice of the other axes; properties with two alternatives are additionally taken through three other routes: API left-nested, derived with but() from a canonicalised property, and API-built with the time window [1 s, 2 s] (min_time has no syntax; read as the start of the window). evaluations = properties; validated = traces on which the property and the conjunction of its canonical form were compared; nontrivial = properties with a disjunction at the split position.",
+        'rule': f"properties: 4 scope kinds (activator simple, with/without alias; terminator with/without predicate) x 5 pattern kinds x width 1..{b['max_width']} at the position canonical_form splits (behaviour for existence, to see it is left alone) x other event width 1..{b['other_width']} x decorations (plain, predicate on first / all alternatives, a conjunctive / disjunctive predicate on the first alternative, alias bound on every alternative and used by the other event or vice versa, activator alias used by every alternative) x time bound (none, {b['time_bounds_s']} s); x all timed traces of length <= {b['trace_len']} (per property the largest length whose complete trace set has <= {b['trace_budget']} traces, never below 2; histogram in outcome_histogram trace_len=*) over mentioned topics + 'o', payload v in {{0,1}} where predicates exist, gaps 0/1/2 s, end slack 0/3 s. Also: alternatives (or the other event) that share their topic with the terminator or the activator under a different predicate (4 scope forms x 5 patterns x 2 shared topics x 5 arrangements); disjunctive terminators (never split) on a thinner slice of the other axes; properties with two alternatives are additionally taken through four other routes: API left-nested, derived with but() from a canonicalised property, and API-built with the time window [1 s, 2 s] (min_time has no syntax; read as the start of the window), and API-built with the window [T/2, T] right after the parsed property with the bound T, which prints the same, in the same process. evaluations = properties; validated = traces on which the property and the conjunction of its canonical form were compared; nontrivial = properties with a disjunction at the split position.",
         'bounds': b,
         'exhaustive': True,
         'assumptions': [
